@@ -265,13 +265,13 @@ SQLTXT = {"Begin": "BEGIN", "Commit": "COMMIT", "Rollback": "ROLLBACK", "Select"
 
 def scenario(ops, ps, sm, caching, cc=True, inuse=None):
     uses_idle = any(o[0] == "IdleTimeout" for o in ops)
-    general = {"connect_timeout": 300}
+    general = {"connect_timeout": 1000}
     if uses_idle:
-        general["idle_client_in_transaction_timeout"] = 700
+        general["idle_client_in_transaction_timeout"] = 1500
     toml = W.make_toml(general=general, pools={"db": {
         "opts": {"pool_mode": "session" if sm else "transaction", "prepared_statements_cache_size": 50 if caching else 0,
                  "cleanup_server_connections": bool(cc)},
-        "users": [{"pool_size": ps, "statement_timeout": 300}],
+        "users": [{"pool_size": ps, "statement_timeout": 1200}],
         "shards": [{"servers": [["b0", "primary"]]}]}})
     steps, prep_n = [], [0]
 
@@ -304,19 +304,19 @@ def scenario(ops, ps, sm, caching, cc=True, inuse=None):
             until = "G" if (o[2] and o[2][-1] == "CopyIn") else "Z"
             steps.append({"op": "send", "c": cn, "msgs": [{"t": "Q", "sql": sqls(c, o[2])}]})
             # a CopyIn message that errors earlier ends with Z: accept either
-            steps.append({"op": "recv", "c": cn, "until": "ZG" if until == "G" else "Z", "timeout_ms": 1500, "label": "q"})
+            steps.append({"op": "recv", "c": cn, "until": "ZG" if until == "G" else "Z", "timeout_ms": 6000, "label": "q"})
         elif k == "Batch":
             named, q = o[2], o[3]
             prep_n[0] += 1
             name = "s%d" % prep_n[0] if named else ""
             steps.append({"op": "send", "c": cn, "msgs": [{"t": "P", "name": name, "sql": sqls(c, [q])}, {"t": "B", "name": name}, {"t": "E"}, {"t": "S"}]})
-            steps.append({"op": "recv", "c": cn, "until": "Z", "timeout_ms": 1500, "label": "b"})
+            steps.append({"op": "recv", "c": cn, "until": "Z", "timeout_ms": 6000, "label": "b"})
         elif k == "CopyDone":
             steps.append({"op": "send", "c": cn, "msgs": [{"t": "d", "data": "1\n"}, {"t": "c"}]})
-            steps.append({"op": "recv", "c": cn, "until": "Z", "timeout_ms": 1500})
+            steps.append({"op": "recv", "c": cn, "until": "Z", "timeout_ms": 6000})
         elif k == "CopyFail":
             steps.append({"op": "send", "c": cn, "msgs": [{"t": "f", "msg": "no"}]})
-            steps.append({"op": "recv", "c": cn, "until": "Z", "timeout_ms": 1500})
+            steps.append({"op": "recv", "c": cn, "until": "Z", "timeout_ms": 6000})
         elif k == "Terminate":
             steps.append({"op": "send", "c": cn, "msgs": [{"t": "X"}]})
             steps.append({"op": "sleep", "ms": 60})
@@ -325,26 +325,26 @@ def scenario(ops, ps, sm, caching, cc=True, inuse=None):
             steps.append({"op": "sleep", "ms": 80})
         elif k == "BadMsg":
             steps.append({"op": "send", "c": cn, "msgs": [{"t": "B", "name": "nosuchstatement"}]})
-            steps.append({"op": "recv", "c": cn, "until": "", "count": 0, "timeout_ms": 400, "label": "bad"})
+            steps.append({"op": "recv", "c": cn, "until": "", "count": 0, "timeout_ms": 3000, "label": "bad"})
             steps.append({"op": "sleep", "ms": 40})
         elif k == "PanicMsg":
             steps.append({"op": "send", "c": cn, "msgs": [{"raw": "430000000553"}]})   # Close, body "S", no name
-            steps.append({"op": "recv", "c": cn, "until": "", "count": 0, "timeout_ms": 400, "label": "panic"})
+            steps.append({"op": "recv", "c": cn, "until": "", "count": 0, "timeout_ms": 3000, "label": "panic"})
             steps.append({"op": "sleep", "ms": 40})
         elif k == "IdleTimeout":
-            steps.append({"op": "sleep", "ms": 800})
-            steps.append({"op": "recv", "c": cn, "until": "Z", "timeout_ms": 900, "label": "idle"})
+            steps.append({"op": "sleep", "ms": 1700})
+            steps.append({"op": "recv", "c": cn, "until": "Z", "timeout_ms": 3000, "label": "idle"})
         elif k == "StmtTimeout":
             gone = (len(steps) % 2 == 0)
             if gone:
                 # the client has already gone (RST) when the statement timeout fires; the server answers later
-                steps.append({"op": "send", "c": cn, "msgs": [{"t": "Q", "sql": sqls(c, o[2], "/*mock:sleep=650*/ ")}]})
+                steps.append({"op": "send", "c": cn, "msgs": [{"t": "Q", "sql": sqls(c, o[2], "/*mock:sleep=2200*/ ")}]})
                 steps.append({"op": "sleep", "ms": 30})
                 steps.append({"op": "close", "c": cn, "rst": True})
-                steps.append({"op": "sleep", "ms": 800})
+                steps.append({"op": "sleep", "ms": 2500})
             else:
                 steps.append({"op": "send", "c": cn, "msgs": [{"t": "Q", "sql": sqls(c, o[2], "/*mock:hang*/ ")}]})
-                steps.append({"op": "recv", "c": cn, "until": "", "count": 0, "timeout_ms": 900, "label": "stmt_timeout"})
+                steps.append({"op": "recv", "c": cn, "until": "", "count": 0, "timeout_ms": 4000, "label": "stmt_timeout"})
                 steps.append({"op": "sleep", "ms": 40})
         elif k == "WriteFail":
             # the statements run, the client is gone (RST) when pgcat writes the reply
@@ -354,10 +354,10 @@ def scenario(ops, ps, sm, caching, cc=True, inuse=None):
             steps.append({"op": "sleep", "ms": 250})
         elif k == "ServerDies":
             steps.append({"op": "send", "c": cn, "msgs": [{"t": "Q", "sql": sqls(c, o[2], "/*mock:close*/ ")}]})
-            steps.append({"op": "recv", "c": cn, "until": "", "count": 0, "timeout_ms": 900, "label": "server_dies"})
+            steps.append({"op": "recv", "c": cn, "until": "", "count": 0, "timeout_ms": 4000, "label": "server_dies"})
             steps.append({"op": "sleep", "ms": 40})
         if inuse is not None and len(opmeta) < len(inuse):
-            steps.append({"op": "wait_inuse", "n": inuse[len(opmeta)], "timeout_ms": 1500})
+            steps.append({"op": "wait_inuse", "n": inuse[len(opmeta)], "timeout_ms": 6000})
         opmeta.append(o)
     steps.append({"op": "sleep", "ms": 60})
     steps.append({"op": "snapshot", "label": "end"})
